@@ -118,26 +118,59 @@ def C20_1_3(ctx, facts):
                   "one side of the comparison derives from the TlsConnectionInfo extension", "comparison does not involve the TLS connection info", c.where())
 
 
+def h2_edges(f):
+    """Edges on which the request version is / is not HTTP/2: `version == HTTP_2` (PartialEq) or a pattern match on the
+    constant (lowered to a switch on the private `Http` enum: variant H2)."""
+    t_edges, f_edges = [], []
+    for (a, b, lab) in f.edges():
+        if lab is None:
+            continue
+        if lab.kind == "bool" and lab.cond.kind == "call" and lab.cond.site.matches(r"PartialEq.*::(eq|ne)$") and "Version" in (lab.cond.site.t.get("argtys") or [""])[0]:
+            consts = {str(r.desc) for x in lab.cond.site.args for r in f.roots(x, through_calls=False) if r.kind == "const"}
+            if not any(c.endswith("Version::HTTP_2") for c in consts):
+                continue
+            is_ne = norm(lab.cond.site.name).endswith("::ne")
+            if lab.value is (not is_ne):
+                t_edges.append((a, b))
+            elif lab.value is is_ne:
+                f_edges.append((a, b))
+        elif lab.kind == "variant" and (lab.adt or "").endswith("version::Http"):
+            if lab.variants == {"H2"}:
+                t_edges.append((a, b))
+            elif "H2" not in lab.variants and lab.variants:
+                f_edges.append((a, b))
+    return t_edges, f_edges
+
+
+def _selection_fn(facts):
+    """The function of the sni module that contains the HTTP/2 version test (today: handle itself)."""
+    h = facts.fn("server::conn::tls::sni::handle")
+    cands = [h] + [g for g in facts.fns.values() if g.nkey.startswith("server::conn::tls::sni::") and g.key != h.key and "tests" not in g.nkey and "{closure" not in g.nkey]
+    for g in cands:
+        t, fe = h2_edges(g)
+        if t and fe:
+            return h, g
+    return h, h
+
+
 def C20_2(ctx, facts):
-    f = facts.fn("server::conn::tls::sni::handle")
-    vt = [c for c in f.calls() if c.matches(r"http::Version as .*PartialEq.*::(eq|ne)$|PartialEq.*::(eq|ne)$") and "Version" in (c.t.get("argtys") or [""])[0]]
-    ctx.floor("sni::handle|version-test", len(vt), 1, "comparison of the request version with HTTP/2")
-    if not vt:
-        return
-    c = vt[0]
-    is_ne = norm(c.name).endswith("::ne")
-    consts = {str(r.desc) for a in c.args for r in f.roots(a, through_calls=False) if r.kind == "const"}
-    ctx.check(any(x.endswith("Version::HTTP_2") for x in consts), "sni::handle|version-is-h2", "the version is compared with http::Version::HTTP_2", "version compared with %s" % sorted(consts), c.where())
-    t_edge = [(a, b) for (a, b, lab) in f.edges() if lab is not None and lab.kind == "bool" and lab.cond.kind == "call" and lab.cond.site.bb == c.bb and lab.value is (not is_ne)]
-    f_edge = [(a, b) for (a, b, lab) in f.edges() if lab is not None and lab.kind == "bool" and lab.cond.kind == "call" and lab.cond.site.bb == c.bb and lab.value is is_ne]
+    h, f = _selection_fn(facts)
+    ctx.touched(f)
+    if f.key != h.key:
+        # the selection lives in a helper: handle must use its result as the host it compares
+        cs = [c for c in closure_tree_calls(facts, h) if c[1].res == f.key]
+        ctx.check(bool(cs), "sni::handle|selection-helper-used", "handle() obtains the request host from %s" % f.nkey.split("::")[-1], "the host-selection helper is not called from handle()", h.where())
+    t_edge, f_edge = h2_edges(f)
+    ctx.floor("sni::handle|version-test", min(len(t_edge), len(f_edge)), 1, "test of the request version against HTTP/2 (both outcomes)")
     if not t_edge or not f_edge:
-        return ctx.undecided("sni::handle|version-edges", "version test edges not found")
+        return
     h2_region = f.reach([t_edge[0][1]]) - f.reach([f_edge[0][1]])
     h1_region = f.reach([f_edge[0][1]]) - f.reach([t_edge[0][1]])
     # h2: authority first, then the Host header as fallback
-    auth = [x for x in f.calls("http::Uri::authority", "http::uri::Uri::authority") if x.bb in h2_region]
-    ctx.check(len(auth) >= 1, "sni::handle|h2-authority", "for HTTP/2 the host is taken from the URI authority", "HTTP/2 arm does not read the URI authority")
-    fallbacks = [x for x in f.calls() if x.bb in h2_region and x.matches(r"Option.*::(or_else|or)$")]
+    tree = closure_tree_calls(facts, f)
+    auth = [c for (g, c) in tree if c.is_("http::Uri::authority", "http::uri::Uri::authority")]
+    ctx.check(len(auth) >= 1, "sni::handle|h2-authority", "for HTTP/2 the host is taken from the URI authority", "the URI authority is never consulted")
+    fallbacks = [x for x in f.calls() if x.matches(r"Option.*::(or_else|or)$") and (x.bb in h2_region or f.key != h.key)]
     ok_fb = False
     for x in fallbacks:
         recv = f.roots(x.args[0])
@@ -152,20 +185,27 @@ def C20_2(ctx, facts):
                 ok_fb = True
     ctx.check(ok_fb, "sni::handle|h2-fallback-host-header", "for HTTP/2 without authority the Host header is used (authority().or_else(host header))",
               "an HTTP/2 request without authority is not validated against its Host header", f.where(t_edge[0][0]))
-    # h1: the Host header
-    ok_h1 = False
-    for x in f.calls():
-        if x.bb in h1_region and ((x.res in facts.fns and reads_host_header(facts, facts.fns[x.res])) or
-                                  (x.matches(r"HeaderMap.*::get$"))):
-            ok_h1 = True
-    for (_, _, _, k) in f.closures_created():
-        pass
-    ctx.check(ok_h1, "sni::handle|h1-host-header", "for other versions the host is the Host header", "non-HTTP/2 arm does not read the Host header", f.where(f_edge[0][0]))
+    # precedence: the authority comes first; the Host header must not take precedence over it
+    inverted = False
+    for x in fallbacks:
+        recv = f.roots(x.args[0])
+        recv_is_header = any(r.kind == "call" and (r.site.matches(r"HeaderMap.*::get$") or (r.site.res in facts.fns and reads_host_header(facts, facts.fns[r.site.res]))) for r in recv) and \
+            not any(r.kind == "call" and r.site.is_("http::Uri::authority", "http::uri::Uri::authority") for r in recv)
+        if recv_is_header:
+            inverted = True
+    ctx.check(not inverted, "sni::handle|h2-authority-takes-precedence", "for HTTP/2 the URI authority takes precedence over a Host header",
+              "for HTTP/2 the Host header takes precedence over the URI authority: a request whose :authority differs from its Host header is validated against the wrong name", f.where(t_edge[0][0]))
+    # other versions: the Host header
+    ok_h1 = reads_host_header(facts, f)
+    ctx.check(ok_h1, "sni::handle|h1-host-header", "for other versions the host is the Host header", "the Host header is never consulted", f.where(f_edge[0][0]))
     # the compared request host is what was selected
-    cmps = [x for x in f.calls() if x.matches(r"str.*::eq_ignore_ascii_case$")]
+    cmps = [x for x in h.calls() if x.matches(r"str.*::eq_ignore_ascii_case$")]
     for x in cmps:
-        rr = f.roots(x.args[0]) | f.roots(x.args[1])
-        sel = any(r.kind == "call" and r.site.bb in h2_region for r in rr) and any(r.kind == "call" and r.site.bb in h1_region for r in rr)
+        rr = h.roots(x.args[0]) | h.roots(x.args[1])
+        if f.key != h.key:
+            sel = any(r.kind == "call" and r.site.res == f.key for r in rr)
+        else:
+            sel = any(r.kind == "call" and r.site.bb in h2_region for r in rr) and any(r.kind == "call" and r.site.bb in h1_region for r in rr)
         ctx.check(sel, "sni::handle|compares-selected-host", "the host that is compared is the one selected above (either arm)", "the compared host does not come from the selection", x.where())
 
 
